@@ -6,6 +6,7 @@ import (
 	"verif/harness/c04"
 	"verif/harness/c05"
 	"verif/harness/c09"
+	"verif/harness/c10"
 	"verif/harness/c17"
 	"verif/harness/c18"
 	"verif/harness/c19"
@@ -17,6 +18,7 @@ func main() {
 		"C04": c04.H{},
 		"C05": c05.H{},
 		"C09": c09.H{},
+		"C10": c10.H{},
 		"C17": c17.H{},
 		"C18": c18.H{},
 		"C19": c19.H{},
